@@ -49,6 +49,10 @@ FIXED_EXPRS = [
     "//a[@k][last()]", "a[@k][position()<last()]", "*[@k or @j][2]", "//*[@k][not(position()=1)]",
     "descendant::a/b", "descendant::b/a[@k]", "//text()[contains(@k,'')]", "//a[@k<2]", "//a[@k=1]", "//*[@k=(1=1)]",
     "preceding::*[1]", "following::*[2]", "ancestor-or-self::*[last()]", "..", "/.",
+    # ancestor axes taken from several context nodes, then a child / self step, in a single path: each node once
+    "//b/ancestor::node()/*", "//a/ancestor-or-self::node()/r", "//*/ancestor::node()/self::*", "//b/ancestor::*/..",
+    "//b/ancestor-or-self::node()/child::*", "//*/parent::node()/*", "//text()/ancestor::node()/*", "//a/ancestor::node()/r/*",
+    "//b/../../*", "//*/ancestor-or-self::*/self::*",
     # and / or / comparison precedence without parentheses (`or` binds weakest, then `and`, then = !=, then < <= > >=)
     "//*[@k or @j and @zz]", "//*[@zz and @j or @k]", "//*[@k='1' or @k='2' and @j]", "//*[@j and @zz or @k='1' or @k='x']",
     "//*[position()=1 or @k and @j='x']", "//*[@k=1 or @k<2 and @j]", "//*[@zz or @j or @k]", "//*[@k and @j and @zz or position()=2]",
@@ -342,8 +346,8 @@ def run(ctx, args):
     ctx.build("Props/C06.vo")
     ctx.trusted.append("lxml/libxml2 XPath engine as the reference Ref.v is validated against; cssselect as CSS translator (oracle)")
 
-    n_docs = 28 if quick else 90
-    per_doc = 90 if quick else 250
+    n_docs = 22 if quick else 90
+    per_doc = 80 if quick else 250
     docs = FIXED_DOCS + [gen_doc(rng) for _ in range(n_docs)]
     preamble = []
     cases = []
@@ -441,6 +445,8 @@ def run(ctx, args):
             ctx.mismatch("Eval.eval vs NodeBase.xpath", json.dumps(dict(small, model=ev, real=real), default=str))
         if real[0] != "ok" or len(real[1]) > 0:
             ctx.nontrivial_case((case["expr"], case["doc"], tuple(case["ctx"])))
+        if real[0] == "ok" and len(set(real[1])) != len(real[1]):
+            ctx.fail("a node occurs more than once in a result", dict(small, real=real))
         # ---- (d) in_document_order
         if case["order"] is not None and m["order"][0] != "none":
             od = m["order"]
